@@ -252,7 +252,7 @@ func (r *replayer) settle(st cliStep) {
 	}
 }
 
-func (r *replayer) spawnStart(p string) {
+func (r *replayer) spawnStart(p string, refusedVariant int) {
 	idx := startIndex(p)
 	id := cliID(idx)
 	size := r.sch.MsgSize
@@ -281,7 +281,15 @@ func (r *replayer) spawnStart(p string) {
 	go func() {
 		r.c.register(p)
 		r.emit(map[string]interface{}{"k": "start_call", "s": idx, "id": idx, "raw": ints(snapshot), "t": r.c.now()})
-		err := r.cli.Start(m, h)
+		var err error
+		switch refusedVariant {
+		case 1: // the model says this call is refused at once (client closed): Do and Indicate must be refused alike
+			err = r.cli.Do(m, h)
+		case 2:
+			err = r.cli.Indicate(m)
+		default:
+			err = r.cli.Start(m, h)
+		}
 		// the caller reuses its message right after Start
 		for i := range m.Raw {
 			m.Raw[i] = 0xEE
@@ -415,7 +423,11 @@ func runSchedule(tw *traceWriter, sch cliSchedule) {
 			r.emit(map[string]interface{}{"k": "deliver", "kind": st.Deliver.Kind, "id": id, "raw": ints(data)})
 		case st.From == "idle":
 			r.started[st.P] = true
-			r.spawnStart(st.P)
+			variant := 0
+			if st.To == "done" {
+				variant = sch.Tr % 3
+			}
+			r.spawnStart(st.P, variant)
 			r.settle(st)
 		case st.From == "X_begin":
 			r.started["X"] = true
